@@ -466,7 +466,9 @@ func instrReaches(from, to ssa.Instruction, avoid ssa.Instruction) bool {
 	return false
 }
 
-func r146(c *Ctx) {
+func r146(c *Ctx) { handedObjectsNotRewritten(c, "R14.6") }
+
+func handedObjectsNotRewritten(c *Ctx, rule string) {
 	p, r := c.P, c.R
 	n := 0
 	for _, rel := range []string{"internal/check", "internal/expand"} {
@@ -518,14 +520,14 @@ func r146(c *Ctx) {
 						}
 					}
 				}
-				r.Check(bad == "", "R14.6", core.FuncName(fn), "object "+al.Comment+" handed to a sub-check", p.Pos(al.Pos()),
+				r.Check(bad == "", rule, core.FuncName(fn), "object "+al.Comment+" handed to a sub-check", p.Pos(al.Pos()),
 					"the object is fully initialised before it is handed over and not written afterwards",
 					"an object is "+bad+" without being re-allocated: the sub-check that received it runs concurrently and sees the later values")
 			})
 		}
 	}
 	if n < 3 {
-		r.Undecide("R14.6", "", "objects handed to sub-checks", "", fmt.Sprintf("%d found (floor 3)", n))
+		r.Undecide(rule, "", "objects handed to sub-checks", "", fmt.Sprintf("%d found (floor 3)", n))
 	}
 }
 
